@@ -5,6 +5,7 @@ pub mod evidence;
 pub mod model;
 pub mod ops;
 pub mod parse;
+pub mod replay;
 pub mod rng;
 pub mod runner;
 pub mod tap;
